@@ -96,7 +96,8 @@ type c05h struct {
 	c        *verifeng.Chooser
 	f        *c05fix
 	cs       *ChainService
-	fh       []chainhash.Hash // committed filter headers by height
+	fh       []chainhash.Hash // filter headers by height (ground truth)
+	fhTip    int              // height up to which they are committed in the store
 	peers    []*vfxQPeer
 	sent     []vfxSent
 	feed     chan query.Peer
@@ -175,8 +176,12 @@ func c05Run(c *verifeng.Chooser, f *c05fix, env *verifhfs.Env, mode string, dept
 			panic(verifeng.InfraError{Msg: "setup: " + err.Error()})
 		}
 		h.fh = append(h.fh, verifchain.NextFilterHeader(f.data[i].FilterHash, h.fh[i-1]))
-		if err := fs.WriteHeaders(headerfs.FilterHeader{HeaderHash: f.chain[i].Hash, FilterHash: h.fh[i], Height: uint32(i)}); err != nil {
-			panic(verifeng.InfraError{Msg: "setup: " + err.Error()})
+	}
+	writeFilterHeaders := func(upTo int) {
+		for i := 1; i <= upTo; i++ {
+			if err := fs.WriteHeaders(headerfs.FilterHeader{HeaderHash: f.chain[i].Hash, FilterHash: h.fh[i], Height: uint32(i)}); err != nil {
+				panic(verifeng.InfraError{Msg: "setup: " + err.Error()})
+			}
 		}
 	}
 	fdb, err := filterdb.New(env.DB, *f.params)
@@ -193,6 +198,7 @@ func c05Run(c *verifeng.Chooser, f *c05fix, env *verifhfs.Env, mode string, dept
 	target := []int{1, 3, 5}[c.ChooseFree(3, "target-height")]
 	var opts []QueryOption
 	persist := false
+	reverseBatch := false
 	cacheCap := uint64(1 << 20)
 	if mode == "C05" {
 		switch c.ChooseFree(3, "batching") {
@@ -200,6 +206,7 @@ func c05Run(c *verifeng.Chooser, f *c05fix, env *verifhfs.Env, mode string, dept
 			opts = append(opts, OptimisticBatch())
 		case 2:
 			opts = append(opts, OptimisticReverseBatch())
+			reverseBatch = true
 		}
 		if c.ChooseFree(2, "max-batch") == 1 {
 			opts = append(opts, MaxBatchSize(2))
@@ -212,6 +219,20 @@ func c05Run(c *verifeng.Chooser, f *c05fix, env *verifhfs.Env, mode string, dept
 			cacheCap = sz + sz/2
 		}
 	}
+	// the filter headers may lag one block behind the block headers; the
+	// target is then a block without a committed filter header, for which
+	// nothing may be returned. (Only with the reverse batch: without it the
+	// unchanged code computes an underflowing range for such a block and
+	// allocates 4 GiB before failing - DESIGN 6.2, outside the properties.)
+	fhTip := c05Len
+	if mode == "C05" && target == c05Len && len(opts) > 0 && c.ChooseFree(2, "filter-headers-lag") == 1 {
+		fhTip = c05Len - 1
+	}
+	if fhTip < c05Len && !reverseBatch {
+		fhTip = c05Len
+	}
+	h.fhTip = fhTip
+	writeFilterHeaders(fhTip)
 	if mode == "C06" && c.ChooseFree(2, "encoding") == 1 {
 		opts = append(opts, Encoding(wire.BaseEncoding))
 	}
@@ -505,6 +526,9 @@ func (h *c05h) judgeVal(tk *verifbubble.Task, height int, servedOK map[int]bool,
 	if h.mode == "C05" {
 		if flt == nil {
 			return c.Fail("C05", "C05:nil-filter-without-error", "GetCFilter(T%d) returned neither a filter nor an error", height)
+		}
+		if height > h.fhTip {
+			return c.Fail("C05", "C05:filter-returned-without-committed-header", "GetCFilter(T%d) returned a filter although no filter header is committed for that block (filter header tip %d)", height, h.fhTip)
 		}
 		if !h.verifyFilter(height, flt) {
 			kind := "unverified-filter-returned"
